@@ -732,6 +732,7 @@ class BaseConnector:
                 # starved and hit the timeout.
                 keyed_waiters.move_to_end(fut, last=False)
 
+            woken_but_unused = False
             try:
                 # Traces happen in the try block to ensure that the
                 # the waiter is still cleaned up if an exception is raised.
@@ -742,12 +743,21 @@ class BaseConnector:
                 if traces:
                     for trace in traces:
                         await trace.send_connection_queued_end()
+            except BaseException:
+                # Cancelled (or timed out) after _release_waiter() had already
+                # woken us up for a free slot: we will not use it.
+                woken_but_unused = fut.done() and not fut.cancelled()
+                raise
             finally:
                 # pop the waiter from the queue if its still
                 # there and not already removed by _release_waiter
                 keyed_waiters.pop(fut, None)
                 if not self._waiters.get(key, True):
                     del self._waiters[key]
+                if woken_but_unused:
+                    # Pass the wake-up on, otherwise the next waiter would
+                    # stay blocked although the slot is free.
+                    self._release_waiter()
 
             if self._available_connections(key) > 0:
                 break
